@@ -22,7 +22,7 @@ CLASSES = {
     'ensemble_maps': {'quick': 80, 'thorough': 1200},
 }
 MIN_EVENTS = {'quick': {'assert:perm': 300, 'assert:map': 150, 'nonidentity_completion_orders': 30}}
-CASE_TIMEOUT = 300
+CASE_TIMEOUT = 60
 
 
 # ------------------------------------------------------------------ map zoo
@@ -65,6 +65,18 @@ class MapZoo(object):
             for i, r in ex.map(work, range(len(items))):
                 out[i] = r
         self.orders.append(done)
+        return out
+
+    def pickling(self, f, *seqs, **kw):
+        """serial map with the data flow of a process-based / distributed map: the function, every work item and every result cross a
+        dill boundary (copy semantics), evaluated last-to-first"""
+        import dill
+        items = list(zip(*seqs)); out = [None] * len(items)
+        g = dill.loads(dill.dumps(f))
+        order = list(range(len(items)))[::-1]
+        for i in order:
+            out[i] = dill.loads(dill.dumps(g(*dill.loads(dill.dumps(items[i])))))
+        self.orders.append(order)
         return out
 
     def forked(self, f, *seqs, **kw):
@@ -228,36 +240,59 @@ def run_ensemble_maps(rng, obs):
     npts = rng.choice([2, 3, 4, 6])
     maxiter = rng.choice([3, 8, 20])
     obs.desc = {'ensemble': which, 'nested': nested, 'dim': dim, 'cost': spec, 'box': box, 'npts': npts, 'maxiter': maxiter}
+    mons = rng.choice(['none', 'none', 'both', 'both', 'evalmon', 'stepmon'])   # copy-semantics maps splice member monitors back: which monitors exist matters
+    restart = rng.random() < 0.4                                                # a second Solve with raised limits on the same ensemble
+    obs.desc.update(monitors=mons, restart=restart)
     def cost(x):
         return raw([float(v) for v in x])
     def run(mapname, zoo, step=False):
+        from mystic.monitors import Monitor
         random.seed(obs.seed); np.random.seed(obs.seed % (2 ** 32))
         s = LatticeSolver(dim, nbins=npts) if which == 'lattice' else BuckshotSolver(dim, npts=npts)
         s.SetNestedSolver(NelderMeadSimplexSolver if nested == 'nm' else PowellDirectionalSolver)
         s.SetStrictRanges(list(box['lo']), list(box['hi']))
-        s.SetEvaluationLimits(maxiter, 10 ** 6)
+        s.SetEvaluationLimits(maxiter, 4000)
         if mapname != 'default': s.SetMapper(getattr(zoo, mapname))
+        if mons in ('both', 'stepmon'): s.SetGenerationMonitor(Monitor())
+        if mons in ('both', 'evalmon'): s.SetEvaluationMonitor(Monitor())
         s.SetTermination(NCOG(1e-4, 2))
         if step: s.Solve(cost, disp=0, step=True)
         else: s.Solve(cost, disp=0)
-        return {'best': [float(v) for v in s.bestSolution], 'bestE': K.fnum(s.bestEnergy),
-                'all_bestE': [K.fnum(e) for e in s._all_bestEnergy], 'all_best': [[float(v) for v in b] for b in s._all_bestSolution],
-                'all_evals': list(map(int, s._all_evals)), 'all_iters': list(map(int, s._all_iters)), 'total_evals': int(s._total_evals)}
+        first = None
+        if restart:
+            first = {'bestE': K.fnum(s.bestEnergy), 'all_evals': list(map(int, s._all_evals)), 'all_iters': list(map(int, s._all_iters))}
+            s.SetEvaluationLimits(maxiter + 5, 5000)
+            if step: s.Solve(disp=0, step=True)
+            else: s.Solve(disp=0)
+        out = {'best': [float(v) for v in s.bestSolution], 'bestE': K.fnum(s.bestEnergy),
+               'all_bestE': [K.fnum(e) for e in s._all_bestEnergy], 'all_best': [[float(v) for v in b] for b in s._all_bestSolution],
+               'all_evals': list(map(int, s._all_evals)), 'all_iters': list(map(int, s._all_iters)), 'total_evals': int(s._total_evals),
+               'gens': int(s.generations), 'evals': int(s.evaluations), 'first': first,
+               'ehist': [K.fnum(e) for e in s.energy_history] if mons in ('both', 'stepmon') else None,
+               'nevalmon': len(s._evalmon) if mons in ('both', 'evalmon') else None,
+               'member_hist': [[K.fnum(e) for e in m.energy_history] for m in s._allSolvers]}
+        return out
     zoo0 = MapZoo(obs.seed)
     base = run('serial', zoo0)
+    base_step = run('serial', MapZoo(obs.seed), step=True)
     nonid = 0
-    for name in ('default', 'reversed', 'shuffled', 'threads', 'forked'):
-        zoo = MapZoo(obs.seed + 11)
-        got = run(name, zoo)
-        obs.check(got == base, 'map:ensemble result is independent of the order/parallelism of the supplied map', map=name, ensemble=which, nested=nested,
-                  field=next((k for k in got if got[k] != base[k]), None), observed=str(got)[:300], expected=str(base)[:300])
-        n = sum(1 for o in zoo.orders if o != sorted(o)); nonid += n
-        obs.event('nonidentity_completion_orders', n)
-    stepw = run('serial', MapZoo(obs.seed), step=True)
-    keys = ('best', 'bestE', 'all_bestE', 'all_best')
+    for name in ('default', 'reversed', 'shuffled', 'threads', 'pickling', 'forked'):
+        for step in (False, True):
+            zoo = MapZoo(obs.seed + 11)
+            got = run(name, zoo, step=step)
+            ref = base_step if step else base
+            obs.check(got == ref, 'map:ensemble result is independent of the order/parallelism of the supplied map', map=name, ensemble=which, nested=nested,
+                      stepwise=step, monitors=mons, restart=restart,
+                      field=next((k for k in got if got[k] != ref[k]), None), observed=str(got)[:300], expected=str(ref)[:300])
+            n = sum(1 for o in zoo.orders if o != sorted(o)); nonid += n
+            obs.event('nonidentity_completion_orders', n)
+            obs.event('copy_semantics_map_runs', 1 if name in ('pickling', 'forked') else 0)
+    stepw = base_step
+    keys = ('best', 'bestE', 'all_bestE', 'all_best', 'all_evals', 'all_iters', 'total_evals', 'gens', 'member_hist')
     obs.check(all(stepw[k] == base[k] for k in keys), 'map:ensemble results are the same in step-wise and run-to-completion mode', ensemble=which, nested=nested,
               field=next((k for k in keys if stepw[k] != base[k]), None), stepwise=str({k: stepw[k] for k in keys})[:400],
               complete=str({k: base[k] for k in keys})[:400], evals=[stepw['all_evals'], base['all_evals']], iters=[stepw['all_iters'], base['all_iters']])
+    obs.event('stepwise_vs_complete_counters_equal', 1 if (stepw['all_evals'] == base['all_evals'] and stepw['all_iters'] == base['all_iters']) else 0)
     obs.nontrivial = nonid > 0
     obs.notes = {'nonidentity_completion_orders': nonid, 'members': len(base['all_bestE'])}
 
